@@ -31,7 +31,10 @@ class HRun:
 
 def _jobspec(name, forever, salt=0):
     # a small seeded duration, so that the final run() has several waves
-    dur = (0.0, 0.0, 0.25, 0.5)[hash((salt, name)) % 4]
+    # (zlib.crc32, not hash(): strings hash differently in every interpreter)
+    import zlib
+    dur = (0.0, 0.0, 0.25, 0.5)[zlib.crc32(
+        ("%d:%s" % (salt, name)).encode()) % 4]
     return {"id": name, "kind": "job", "cls": "abstract", "critical": False,
             "forever": forever, "script": [["sleep", dur]] if dur else [],
             "outcome": "ret", "cleanup": [], "handler": []}
